@@ -84,10 +84,17 @@ def snapshot(o):
 
 
 def structural_key(s):
-    """the part of a snapshot that == must distinguish: nodes, edges, externals, rules, start"""
-    if s[0] == 'graph': return ('graph', s[1], s[2], s[3])
-    if s[0] == 'fg': return ('graph',) + s[1][1:4]
-    if s[0] == 'hrg': return ('hrg', s[1], tuple((lhs, g[1], g[2], g[3]) for lhs, g in s[4]))
+    """the part of a snapshot that == must distinguish: nodes, edges, externals, rules, start.
+    Graph.__eq__ compares the id -> node and id -> edge dictionaries and HRG.__eq__ the lhs -> rule-list dictionary, so the
+    order in which nodes, edges or left-hand sides were inserted is NOT part of the key (the order of the externals and of the
+    rules of one left-hand side is)."""
+    def gkey(nodes, edges, ext): return (tuple(sorted(nodes, key=repr)), tuple(sorted(edges, key=repr)), ext)
+    if s[0] == 'graph': return ('graph',) + gkey(s[1], s[2], s[3])
+    if s[0] == 'fg': return ('graph',) + gkey(*s[1][1:4])
+    if s[0] == 'hrg':
+        by_lhs = {}
+        for lhs, g in s[4]: by_lhs.setdefault(lhs, []).append(gkey(g[1], g[2], g[3]))
+        return ('hrg', s[1], tuple(sorted((lhs, tuple(rs)) for lhs, rs in by_lhs.items())))
     if s[0] == 'fgg': return structural_key(s[1])
     raise ValueError(s[0])
 
